@@ -21,7 +21,7 @@ def run_pipe(stages, inputs, extra="", release=False, timeout=20, want_model=Tru
     impl = run_lines_isolated(RVH_RELEASE if release else RVH_DEBUG, reqs, timeout=timeout, chunk=40)
     models = []
     if want_model:
-        mreqs = [pipe_req(stages, f) for f in inputs]
+        mreqs = [pipe_req(stages, f, extra) for f in inputs]
         models.append(run_lines_isolated(DRIVER, mreqs, timeout=120, chunk=200))
         models.append(run_lines_isolated(DRIVER, [r + " desc" for r in mreqs], timeout=120, chunk=200))
     return impl, models
